@@ -459,6 +459,16 @@ func ruleC01c(c *Ctx) {
 					"both outcomes of this comparison can still lead to a positive answer (e.g. "+p.ipos(retT)+" and "+p.ipos(retF)+"): a request token that fails the comparison is admitted")
 			} else {
 				c.ok(uname, construct+" has a failing edge", p.ipos(iff), "one outcome cannot reach a positive answer")
+				// polarity: it is the MISmatch that fails
+				matchOnTrue, known := matchPolarity(iff.Cond)
+				if known {
+					matchReaches := rT
+					if !matchOnTrue {
+						matchReaches = rF
+					}
+					c.check(matchReaches, uname, construct+": the mismatch is what fails", p.ipos(iff), "the matching outcome can reach a positive answer, the mismatching one cannot",
+						"the comparison is inverted: a request token that MATCHES is refused and one that does not match is admitted")
+				}
 			}
 		}
 	}
@@ -496,8 +506,70 @@ func ruleC01c(c *Ctx) {
 				}
 			}
 			c.check(okEnf, p.fname(cal), "a failed regular-expression match is a failed token", p.ipos(i), "the false outcome of regexp.MatchString cannot produce a positive answer", "the result of regexp.MatchString does not decide the answer")
+			// any other positive answer of the helper is the tail wildcard: under `<expression> == "*"`
+			cfacts := factsAt(cal)
+			for _, r := range returnsOf(cal) {
+				b, isC := constBool(r.Results[0])
+				if !isC || !b {
+					continue
+				}
+				wild := false
+				for f := range cfacts[r.Block()] {
+					bo, ok := f.Cond.(*ssa.BinOp)
+					if !ok || !f.Pol || bo.Op != token.EQL {
+						continue
+					}
+					for _, pr := range [][2]ssa.Value{{bo.X, bo.Y}, {bo.Y, bo.X}} {
+						if sv, ok := constStr(pr[0]); ok && sv == "*" {
+							if _, isSl := strip(pr[1]).(*ssa.Slice); isSl {
+								wild = true
+							}
+						}
+					}
+				}
+				c.check(wild, p.fname(cal), "an unconditional 'matches' is the tail wildcard only", p.ipos(r), "under <expression part of the template token> == \"*\"", "the regex helper answers 'matches' without consulting the expression although the expression is not the wildcard `*`: every value satisfies a regex-constrained variable")
+			}
 		})
 	}
+}
+
+// matchPolarity: for a condition whose meaning is known, which outcome means "the token matches".
+func matchPolarity(cond ssa.Value) (matchOnTrue bool, known bool) {
+	pol := true
+	for {
+		u, ok := cond.(*ssa.UnOp)
+		if !ok || u.Op != token.NOT {
+			break
+		}
+		cond, pol = u.X, !pol
+	}
+	switch x := cond.(type) {
+	case *ssa.BinOp:
+		if !isStringType(x.X.Type()) {
+			return false, false
+		}
+		switch x.Op {
+		case token.EQL:
+			return pol, true
+		case token.NEQ:
+			return !pol, true
+		}
+	case *ssa.Call:
+		switch calleeName(&x.Call) {
+		case "strings.HasSuffix", "strings.HasPrefix", "strings.EqualFold", "regexp.MatchString", "(*regexp.Regexp).MatchString":
+			return pol, true
+		}
+		if cal := x.Call.StaticCallee(); cal != nil && isBoolFunc(cal) && (strings.Contains(strings.ToLower(cal.Name()), "match")) {
+			return pol, true
+		}
+	case *ssa.Extract:
+		if call, ok := x.Tuple.(*ssa.Call); ok && x.Index == 0 {
+			if cal := call.Call.StaticCallee(); cal != nil && strings.Contains(strings.ToLower(cal.Name()), "match") {
+				return pol, true
+			}
+		}
+	}
+	return false, false
 }
 
 func condDesc(p *Program, v ssa.Value) string {
